@@ -1,0 +1,34 @@
+//go:build verif
+
+// Hooks for the verification harness in /verif (suite `confine`, property C18). Compiled only with
+// `-tags verif`; thin exported wrappers around unexported identifiers, no behaviour of their own.
+package apk
+
+import (
+	"net/http"
+	"net/url"
+)
+
+// VerifSanitizeArchivePath calls sanitizeArchivePath.
+func VerifSanitizeArchivePath(d, t string) (string, error) { return sanitizeArchivePath(d, t) }
+
+// VerifCachePathFromURL calls cachePathFromURL.
+func VerifCachePathFromURL(root string, u url.URL) (string, error) { return cachePathFromURL(root, u) }
+
+// VerifCacheFileFromEtag calls cacheFileFromEtag.
+func VerifCacheFileFromEtag(cacheFile, etag string) (string, error) {
+	return cacheFileFromEtag(cacheFile, etag)
+}
+
+// VerifEtagFromResponse calls etagFromResponse.
+func VerifEtagFromResponse(resp *http.Response) (string, bool) { return etagFromResponse(resp) }
+
+// VerifCacheDirForPackage calls cacheDirForPackage.
+func VerifCacheDirForPackage(root string, pkg InstallablePackage) (string, error) {
+	return cacheDirForPackage(root, pkg)
+}
+
+// VerifCacheClient returns the caching http.Client apko puts in front of `wrapped` for the cache directory dir.
+func VerifCacheClient(dir string, offline bool, shared *Cache, wrapped *http.Client, etagRequired bool) *http.Client {
+	return (&cache{dir: dir, offline: offline, shared: shared}).client(wrapped, etagRequired)
+}
